@@ -147,8 +147,12 @@ impl<'a> Xw<'a> {
                     }
                 }
                 _ => {
-                    // character references for a few characters
-                    for c in text.chars() {
+                    // character references for a few characters; now and then a comment in the middle of the text
+                    let mid = if self.rng.chance(1, 6) { text.chars().count() / 2 } else { usize::MAX };
+                    for (ci, c) in text.chars().enumerate() {
+                        if ci == mid {
+                            self.out.push_str("<!-- mid -->");
+                        }
                         match c {
                             '&' => self.out.push_str("&amp;"),
                             '<' => self.out.push_str("&lt;"),
@@ -165,6 +169,20 @@ impl<'a> Xw<'a> {
             let pad = self.rng.chance(1, 10);
             if pad {
                 self.out.push_str(*self.rng.pick(&[" ", "\n", "\t ", "\r\n  "]));
+            }
+            // a comment or a processing instruction in the MIDDLE of the text splits it in two pieces of one value
+            if text.len() >= 2 && text.is_ascii() && self.rng.chance(1, 12) {
+                let cut = text.len() / 2;
+                self.out.push_str(&text[..cut]);
+                self.out.push_str(if self.rng.chance(1, 2) { "<!-- digits -->" } else { "<?mid x?>" });
+                self.out.push_str(&text[cut..]);
+                if pad {
+                    self.out.push_str(" ");
+                }
+                self.out.push_str("</");
+                self.out.push_str(&t);
+                self.out.push('>');
+                return;
             }
             self.out.push_str(text);
             if pad {
